@@ -460,6 +460,8 @@ void* __wrap_realloc(void* p, size_t size) {
 
 // ------------------------------------------------------------------------------------------------
 // scheduler
+static char* put_u64(char* p, uint64_t v);
+static char* put_i64(char* p, int64_t v);
 #define MAXT 32
 enum { TS_UNUSED = 0, TS_READY = 1, TS_DONE = 3 };
 typedef struct {
@@ -509,7 +511,23 @@ static inline void trace_mix(uint64_t a, uint64_t b) {
   g_st.trace_hash = (g_st.trace_hash ^ (a * 0x9E3779B97F4A7C15ull + b)) * 0x100000001B3ull;
 }
 
+static int g_dec_fd = -1;
+void sim_set_decision_fd(int fd) { g_dec_fd = fd; }
+static void stream_decision(int from, uint64_t local, int next) {
+  char buf[96];
+  char* p = buf;
+  *p++ = 'D';
+  *p++ = ' ';
+  p = put_i64(p, from);
+  *p++ = ' ';
+  p = put_u64(p, local);
+  *p++ = ' ';
+  p = put_i64(p, next);
+  *p++ = '\n';
+  (void)!write(g_dec_fd, buf, (size_t)(p - buf));
+}
 static void record_decision(int from, int next) {
+  if (g_dec_fd >= 0) stream_decision(from, from < 0 ? 0 : T[from].local, next);
   if (g_ndec < MAXDEC) {
     g_dec_step[g_ndec] = ((uint64_t)(from < 0 ? 0xFFFF : from) << 48) | (from < 0 ? 0 : (T[from].local & 0xFFFFFFFFFFFFull));
     g_dec_task[g_ndec] = next;
@@ -658,6 +676,7 @@ void sim_sched_begin(int ntasks, const sim_sched_cfg* cfg) {
     for (uint32_t i = 0; i < 8; ++i) g_pct_points[i] = 1 + sm64(&g_rng) % span;
   }
   g_cur = -1;
+  if (g_dec_fd >= 0) (void)!write(g_dec_fd, "B\n", 2);
   __atomic_store_n(&g_active, 1, __ATOMIC_SEQ_CST);
 }
 
